@@ -169,9 +169,14 @@ func (self *Interpreter) functionLiteral(node ast.AnalyzedFunctionLiteralExpress
 	// TODO: test if closures work correctly
 	// TODO: evaluate whether a deep copy is required
 
+	// The closure refers to the scopes which exist now (by reference: it sees later changes of their variables).
+	// It needs a list of its own: the interpreter's list is reused, its slots are overwritten by later calls.
+	scopes := make([]map[string]*value.Value, len(self.currentModule.scopes))
+	copy(scopes, self.currentModule.scopes)
+
 	return value.NewValueClosure(
 		node.Body,
-		self.currentModule.scopes,
+		scopes,
 	), nil
 }
 
